@@ -1376,6 +1376,9 @@ func (ex *Exec) toAnyAs(v *Val, to types.Type) *Val {
 		return setTy(set(tagOther, "s", v.S))
 	}
 	// any other dynamic type
+	if it, isIface := to.Underlying().(*types.Interface); isIface && it.NumMethods() > 0 {
+		ex.boxedNonZeroCheck(ex.stNow, v, ex.stmtPos)
+	}
 	r := ex.eng.smt.fresh("boxed", "Int")
 	return setTy(set(tagOther, "ref", r))
 }
@@ -1417,6 +1420,14 @@ func (ex *Exec) indexVal(st *State, x, i *Val, pos token.Pos, commaOk bool, spec
 		mt, _ := x.T.Underlying().(*types.Map)
 		i = ex.coerceTo(i, mtKey(mt))
 		present := "(select " + x.kid("dom").S + " " + i.S + ")"
+		if ex.lockCheck && !spec {
+			// remembered for insert-only tables: this value of the table (a new one after every re-acquisition
+			// of its lock) has been looked up under this key
+			if ex.examined == nil {
+				ex.examined = map[string]bool{}
+			}
+			ex.examined[x.kid("dom").S+"|"+i.S] = true
+		}
 		ev := ex.selectVal(x.kid("val"), i.S)
 		var et types.Type
 		if mt != nil {
